@@ -1211,6 +1211,19 @@ class PendingClassDef(_PendingCompoundStmt[ClassDef]):
             ],
         )
         return_list.append(load_class)
+
+        # apply the decorators (the one nearest to the class first)
+        for dec_expr in reversed(self.node.decorator_list):
+            return_list.append(
+                self.nsp.get_assign(
+                    self.node.name,
+                    Call(
+                        func=expr_transf(self.nsp, dec_expr),
+                        args=[self.nsp.get_load_name(self.node.name)],
+                        keywords=[],
+                    ),
+                )
+            )
         return return_list
 
 
